@@ -142,7 +142,8 @@ Contacted(p) == \E i \in DOMAIN tried : tried[i] = p
 PresentIdx == SelectSeq(<<1, 2, 3, 4, 5>>, LAMBDA i : cfg[PathOrder[i]] # "absent")
 Chain == [k \in DOMAIN PresentIdx |->
             [path |-> PathOrder[PresentIdx[k]], resp |-> cfg[PathOrder[PresentIdx[k]]],
-             dig |-> DigOf(cfg[PathOrder[PresentIdx[k]]]), hits |-> IF Contacted(PathOrder[PresentIdx[k]]) THEN 1 ELSE 0]]
+             dig |-> DigOf(cfg[PathOrder[PresentIdx[k]]]), hits |-> IF Contacted(PathOrder[PresentIdx[k]]) THEN 1 ELSE 0,
+             order |-> IF Contacted(PathOrder[PresentIdx[k]]) THEN CHOOSE i \in DOMAIN tried : tried[i] = PathOrder[PresentIdx[k]] ELSE 0]]
 Digs == IF file = "none" THEN {} ELSE {file}
 
 \* ---- invariants ---------------------------------------------------------------------------------------
